@@ -49,7 +49,7 @@ from vc.common import Report, Violation, main_wrapper
 
 PROP = 'C04'
 
-OP_BUDGET = {'quick': 400_000, 'thorough': 3_000_000}  # per sampled (contract, width): executed ops, not wall clock
+OP_BUDGET = {'quick': 400_000, 'thorough': 2_000_000}  # per sampled (contract, width): executed ops, not wall clock
 TUPLE_LIMIT = {'quick': 400, 'thorough': 6000}
 BATCH = {'quick': 10, 'thorough': 8}  # macro applications per assembled program
 
@@ -271,7 +271,7 @@ def check_in(h: HexHarness, k: int, tier: str, seed: int, limit: int) -> Dict[st
     rng = random.Random(zlib.crc32(f'{c.name}|{c.call}|{w}|{seed}'.encode()))
     res: Dict[str, Any] = dict(evals=0, viols=[], note=None, exhaustive=False, ops=0)
     if c.domain:
-        tuples, exhaustive = list(c.domain(rng)), True
+        tuples, exhaustive = list(c.domain(rng)), bool(getattr(c.domain, 'all_tuples', False))
     else:
         tuples, exhaustive = default_domain(c, rng, limit)
     res['exhaustive'] = exhaustive
